@@ -195,7 +195,8 @@ def partial_transpose(
         order="F",
     )
 
-    # Return the subsystems back to their original positions.
+    # Return the subsystems back to their original positions. (Work on a copy: `dim` may still be the caller's array.)
+    dim = np.array(dim)
     dim[:, sys] = np.flipud(dim[:, sys])
 
     dim = dim[:, (np.array(perm)).tolist()]
